@@ -132,7 +132,15 @@ def beat_formula(ctx: Ctx) -> None:
         ctx.expect("R-REBUILD", fi, "the keysound scratch list is created afresh (all None) for every row", fresh, "",
                    f"'{ks.value.id}' is not re-created inside the row loop: an index parsed on one row leaks onto later notes in the same column", node=c)
         ex = [x for x in calls(fi) if callee_name(ctx, fi, x).endswith("NoteData._extract_keysound_indices") and in_body(outer, x)]
-        okx = len(ex) == 1 and len(ex[0].args) == 2 and isinstance(ex[0].args[1], ast.Name) and ex[0].args[1].id == ks.value.id and isinstance(ex[0].args[0], ast.Name) and ex[0].args[0].id == line_var
+        def _row_text(e):
+            if isinstance(e, ast.Name) and e.id == line_var:
+                return True
+            if isinstance(e, ast.Name):
+                bs_ = [b for b in locals_of(fi).b.get(e.id, []) if b.kind == "assign" and in_body(outer, b.node)]
+                return len(bs_) == 1 and ast.unparse(bs_[0].value) == f"{line_var}.strip()"
+            return ast.unparse(e) == f"{line_var}.strip()"
+
+        okx = len(ex) == 1 and len(ex[0].args) == 2 and isinstance(ex[0].args[1], ast.Name) and ex[0].args[1].id == ks.value.id and _row_text(ex[0].args[0])
         ctx.expect("R-REBUILD", fi, "that list is the one filled from this row's brackets", okx, "", "", node=c)
     # exactly one note per non-zero cell
     fs = facts(ctx, fi, c)
@@ -143,11 +151,17 @@ def beat_formula(ctx: Ctx) -> None:
     ys = [n for n in body_walk(fi.node) if isinstance(n, (ast.Yield, ast.YieldFrom))]
     ctx.expect("R-ORDER", fi, "the only yield is that note", len(ys) == 1 and isinstance(ys[0], ast.Yield) and ys[0].value is c, f"{len(ys)} yield(s)", f"{len(ys)} yield(s)", node=c)
     # cells are the characters of the stripped, bracket-free line
-    cells_ok = isinstance(cells_iter, ast.Name) and cells_iter.id == line_var
+    cells_ok = isinstance(cells_iter, ast.Name) and (cells_iter.id == line_var or any(
+        b.kind == "assign" and in_body(outer, b.node) and isinstance(b.value, ast.Call) and callee_name(ctx, fi, b.value).endswith("NoteData._extract_keysound_indices")
+        for b in locals_of(fi).b.get(cells_iter.id, [])))
     ctx.expect("R-TABLE", fi, "cells are the characters of the row", cells_ok, "", f"cell loop iterates {src(cells_iter)}", node=inner)
     for lp in (outer, inner):
-        skips = [n for st in lp.body for n in walk_no_nested(st) if isinstance(n, (ast.Continue, ast.Break, ast.Return))]
-        ctx.expect("R-ORDER", fi, f"no row/cell is skipped in the loop over {src(lp.iter, 30)}", not skips, "", f"{len(skips)} early exit(s)", node=lp)
+        skips = [n for st in lp.body for n in walk_no_nested(st) if isinstance(n, (ast.Break, ast.Return))]
+        for cont in [n for st in lp.body for n in walk_no_nested(st) if isinstance(n, ast.Continue)]:
+            cf = [(ast.unparse(a), pol) for a, pol in facts(ctx, fi, cont)]
+            if cf not in ([(f"{cell_var} == '0'", True)], [(f"{cell_var} != '0'", False)]):
+                skips.append(cont)
+        ctx.expect("R-ORDER", fi, f"no row/cell is skipped in the loop over {src(lp.iter, 30)} (except empty cells)", not skips, "", f"{len(skips)} early exit(s)", node=lp)
     # call site in __iter__
     fit = p.func(f"{ND}.__iter__")
     cc = [x for x in calls(fit) if callee_name(ctx, fit, x) == fi.fq]
@@ -384,6 +398,9 @@ def from_notes_rows(ctx: Ctx) -> None:
         it = inline(rc.args[1], pm)
         it_ok = (isinstance(it, ast.Call) and isinstance(it.func, ast.Name) and it.func.id == "map" and len(it.args) == 2 and isinstance(it.args[0], ast.Lambda)
                  and ast.unparse(it.args[0].body) == f"{it.args[0].args.args[0].arg}.beat.denominator" and isinstance(it.args[1], ast.Name) and it.args[1].id == mparam)
+        if isinstance(it, (ast.GeneratorExp, ast.ListComp)) and len(it.generators) == 1 and not it.generators[0].ifs and isinstance(it.generators[0].target, ast.Name):
+            g_ = it.generators[0]
+            it_ok = ast.unparse(it.elt) == f"{g_.target.id}.beat.denominator" and isinstance(g_.iter, ast.Name) and g_.iter.id == mparam
         okq = okq and it_ok
     ctx.expect("R-POLY", pm, "q is the least common multiple of the beats' denominators (1 for an empty measure)", okq, src(rc, 100), f"q = {src(rc, 140)}", node=rc)
     # row key
@@ -452,18 +469,26 @@ def from_notes_rows(ctx: Ctx) -> None:
     # Note.__str__ : type character + [index] iff keysound_index is not None
     ns = p.func("simfile.notes:Note.__str__")
     sn = ns.param_names()[0]
-    aug = [n for n in body_walk(ns.node) if isinstance(n, ast.AugAssign)]
-    oka = False
-    if len(aug) == 1:
-        fs = facts(ctx, ns, aug[0])
-        guard = any(pol and isinstance(a, ast.Compare) and isinstance(a.ops[0], ast.IsNot) and self_attr(a.left, sn) == "keysound_index" for a, pol in fs)
-        v = aug[0].value
-        parts = []
-        if isinstance(v, ast.JoinedStr):
-            parts = [x.value if isinstance(x, ast.Constant) else ("{" + src(x.value) + "}") for x in v.values]
-        oka = guard and parts == ["[", "{" + sn + ".keysound_index}", "]"]
-    init = [b for b in locals_of(ns).b.values() for x in b if x.kind == "assign" and ast.unparse(x.value) == f"str({sn}.note_type)"]
-    ctx.expect("R-TABLE", ns, "a cell is the type character plus '[index]' iff the note has a keysound index", oka and len(init) == 1, "", "Note.__str__ shape changed", node=ns.node)
+    from ..decide import decisions, judge_table, symbolic_return
+    from .common import string_parts
+
+    def outcome(d):
+        v = symbolic_return(d)
+        parts = string_parts(v) if v is not None else None
+        if parts is None:
+            return "?"
+        return "".join(x if k == "lit" else "{" + ast.unparse(x) + "}" for k, x in parts)
+
+    from ..decide import key as _k
+    decs_ = decisions(ctx, ns)
+    used = {k for d in decs_ for k in d.assign if "keysound_index" in k}
+    want = _k(f"{sn}.keysound_index is None")
+    if used and used != {want}:
+        ctx.bad("R-TABLE", ns, "the keysound index is tested with 'is None'", f"the test is {sorted(used)}: a keysound index of 0 would be written without its bracket", node=ns.node)
+        return
+    judge_table(ctx, "R-TABLE", ns, "a cell is the type character plus '[index]' iff the note has a keysound index", decs_,
+                [f"{sn}.keysound_index is None"],
+                lambda a: "{" + sn + ".note_type}" if a[f"{sn}.keysound_index is None"] else "{" + sn + ".note_type}[{" + sn + ".keysound_index}]", outcome)
 
 
 # ---------------------------------------------------------------------------
@@ -580,7 +605,7 @@ def counting_tables(ctx: Ctx) -> None:
     ok = False
     if len(rr) == 1 and isinstance(rr[0].value, ast.Call) and callee_name(ctx, cs, rr[0].value) == f"{mod}:count_grouped_notes":
         outer = rr[0].value
-        inner = outer.args[0] if outer.args else None
+        inner = inline(outer.args[0], cs) if outer.args else None
         if isinstance(inner, ast.Call) and callee_name(ctx, cs, inner) == "simfile.notes.group:group_notes":
             kwi = {k.arg for k in inner.keywords}
             ok = inner.args and isinstance(inner.args[0], ast.Name) and inner.args[0].id == cs.param_names()[0] and "join_heads_to_tails" not in kwi \
@@ -617,7 +642,7 @@ def counting_tables(ctx: Ctx) -> None:
     gc = [c for c in calls(hr) if callee_name(ctx, hr, c) == "simfile.notes.group:group_notes"]
     c = one(gc, "group_notes call in _count_holds_or_rolls")
     kw = {k.arg: k.value for k in c.keywords}
-    inc = kw.get("include_note_types")
+    inc = inline(kw["include_note_types"], hr) if "include_note_types" in kw else None
     headp = hr.param_names()[1]
     okinc = False
     if isinstance(inc, ast.Call) and isinstance(inc.func, ast.Name) and inc.func.id == "frozenset" and len(inc.args) == 1 and isinstance(inc.args[0], (ast.Tuple, ast.List, ast.Set)):
@@ -628,8 +653,8 @@ def counting_tables(ctx: Ctx) -> None:
     ctx.expect("R-TABLE", hr, "holds/rolls are counted with head/tail joining on", try_ev(ctx, hr, kw.get("join_heads_to_tails")) is True if "join_heads_to_tails" in kw else False, "", "join_heads_to_tails is not True", node=c)
     ctx.expect("R-TABLE", hr, "same-beat holds are counted separately (default KEEP_SEPARATE)", "same_beat_notes" not in kw, "", f"same_beat_notes={src(kw.get('same_beat_notes')) if 'same_beat_notes' in kw else ''}", node=c)
     rr = [r for r in body_walk(hr.node) if isinstance(r, ast.Return)]
-    okr = len(rr) == 1 and isinstance(rr[0].value, ast.Call) and callee_name(ctx, hr, rr[0].value) == f"{mod}:count_grouped_notes" and rr[0].value.args and rr[0].value.args[0] is c \
-        and not rr[0].value.keywords and len(rr[0].value.args) == 1
+    okr = len(rr) == 1 and isinstance(rr[0].value, ast.Call) and callee_name(ctx, hr, rr[0].value) == f"{mod}:count_grouped_notes" and rr[0].value.args \
+        and norm(inline(rr[0].value.args[0], hr)) == norm(inline(c, hr)) and not rr[0].value.keywords and len(rr[0].value.args) == 1
     ctx.expect("R-TABLE", hr, "every emitted item counts once (minimum 1)", okr, "", "", node=hr.node)
     # count_holds / count_rolls: clones modulo the head constant
     ch, cr = p.func(f"{mod}:count_holds"), p.func(f"{mod}:count_rolls")
@@ -638,9 +663,11 @@ def counting_tables(ctx: Ctx) -> None:
         body = [s for s in f.node.body if not (isinstance(s, ast.Expr) and isinstance(s.value, ast.Constant))]
         txt = "\n".join(ast.unparse(s) for s in body)
         head = None
+        from ..flow import call_args as _ca
         for c_ in calls(f):
-            if callee_name(ctx, f, c_) == hr.fq and len(c_.args) >= 2:
-                v = try_ev(ctx, f, c_.args[1])
+            if callee_name(ctx, f, c_) == hr.fq:
+                hv = _ca(c_, hr).get(headp)
+                v = try_ev(ctx, f, hv) if hv is not None else None
                 head = v.name if isinstance(v, EnumVal) else None
         return txt, head
 
